@@ -324,6 +324,7 @@ func (obj JsonWebEncryption) Decrypt(decryptionKey interface{}) ([]byte, error) 
 	authData := obj.computeAuthData()
 
 	var plaintext []byte
+	var decrypted bool
 	for _, recipient := range obj.recipients {
 		recipientHeaders := obj.mergedHeaders(&recipient)
 
@@ -332,12 +333,15 @@ func (obj JsonWebEncryption) Decrypt(decryptionKey interface{}) ([]byte, error) 
 			// Found a valid CEK -- let's try to decrypt.
 			plaintext, err = cipher.decrypt(cek, authData, parts)
 			if err == nil {
+				decrypted = true
 				break
 			}
 		}
 	}
 
-	if plaintext == nil {
+	// An empty payload decrypts to an empty (nil) plaintext, so the plaintext
+	// itself does not tell whether the decryption succeeded.
+	if !decrypted {
 		return nil, ErrCryptoFailure
 	}
 
